@@ -298,7 +298,7 @@ def main(tier):
         ck.extra["known_finding_obligations"] = [{"count": len(known_hits), "examples": [h[1] for h in known_hits[:5]], "replay": rp}]
     for can, oc in zip(CANARIES, outs[len(chunks):]):
         ref = oc[0] == "ok" and any(r["status"] != "proved" for r in oc[1]["results"])
-        ck.canaries.append((f"{can[0]}: {can[2][:50]!r} -> {can[3][:50]!r}", ref))
+        ck.canary(f"{can[0]}: {can[2][:50]!r} -> {can[3][:50]!r}", ref, oc)
     for f in ("jaxley.integrate.integrate", "jaxley.integrate.build_init_and_step_fn", "jaxley.integrate.add_stimuli", "jaxley.integrate.add_clamps",
               "jaxley.utils.jax_utils.nested_checkpoint_scan", "jaxley.utils.jax_utils._inner_nested_scan"):
         ck.add_function(f, "body discharged" if not ck.violations else "body NOT discharged")
